@@ -149,6 +149,7 @@ def cas_helper_summary(h, res: Resolver, target_param: str, bh_param: str) -> tu
         return None
     _CURRENT_FN[0] = h.node
     cas = Cas(_HelperInst(fa, target_param), res, bh={bh_param})  # type: ignore[arg-type]
+    _NN_EXTRA[id(h.node)] = (set(cas.read_vars), set(cas.bh))
     cfg = cas.cfg
     rets = [n for n in cfg.nodes if isinstance(n.ast, ast.Return)]
     if not rets or not all(isinstance(n.ast.value, ast.Tuple) for n in rets) or len({len(n.ast.value.elts) for n in rets}) != 1:  # type: ignore[union-attr]
@@ -376,6 +377,8 @@ class Cas:
                 return [k[0] for k in reversed(path)]
             if n in valid:
                 continue  # passing the compare (either edge) discharges the obligation
+            if self.bh and all(dict(st).get("bh:" + b) == "F" for b in self.bh):
+                continue  # base_hash is known falsy on this path: there is nothing to compare
             for s, lab, st2 in nn.edges(cfg, n, st):
                 if (s, st2) in seen:
                     continue
@@ -417,6 +420,7 @@ def check(run: Run) -> None:
         _CURRENT_FUNC[0] = inst.fa.fi.fqn
         cas = Cas(inst, res)
         _CURRENT_FN[0] = inst.fa.fi.node  # (after Cas: its helper summaries set their own function)
+        _NN_EXTRA[id(inst.fa.fi.node)] = (set(cas.read_vars), set(cas.bh))
         fa, cfg, fi, mod = cas.fa, cas.cfg, cas.fa.fi, cas.fa.fi.module
         if not cas.bh:
             raise AnalysisError(f"{fi.fqn}: no base_hash parameter/local recognised")
@@ -661,51 +665,122 @@ def _temp_cleanup(run: Run, inst: Install, cas: Cas) -> None:
                       path=cfg.describe_path(pth[-12:], mod.relpath), line=endn.lineno)
 
 
+_NN_EXTRA: dict[int, tuple[set[str], set[str]]] = {}  # per function: (locals that hold text read from the target, base_hash names)
+
+
 class NNState:
-    """None-ness of the None-or-error locals (err_names) along a path: `x = None` / `x = <error value>` set it; a test of x
-    (`x is None`, `x is not None`, `x`, `not x`) is feasible only on the edge that agrees with what is known, and teaches it"""
+    """what is known along a path about (a) the None-ness of the None-or-error locals (err_names) and of the locals that hold
+    text read from the target (never None), (b) the truthiness of the base_hash names. `x = None` / `x = <error value>` /
+    `x = <handle>.read()` set (a); tests refine both; a test is followed only on the edges its three-valued evaluation under
+    the known facts allows (`not base_hash or on_disk is None` has no true edge where base_hash is known truthy and on_disk was
+    just read)."""
 
     def __init__(self, fn: ast.AST):
-        self.tracked = err_names(fn)
+        self.tracked = set(err_names(fn))
+        reads, bh = _NN_EXTRA.get(id(fn), (set(), set()))
+        self.reads = set(reads)
+        self.bh = set(bh)
+        self.tracked |= self.reads
 
-    def test_of(self, t: ast.AST) -> tuple[str, bool] | None:
+    # -- atoms
+    def _atom(self, t: ast.AST):
+        """('nn', var, polarity: test true <=> not None) | ('tr', var, polarity: test true <=> truthy) | None"""
         neg = False
-        if isinstance(t, ast.UnaryOp) and isinstance(t.op, ast.Not):
-            t, neg = t.operand, True
-        if isinstance(t, ast.Name) and t.id in self.tracked:
-            return t.id, not neg
-        if isinstance(t, ast.Compare) and len(t.ops) == 1 and isinstance(t.left, ast.Name) and t.left.id in self.tracked and isinstance(t.comparators[0], ast.Constant) and t.comparators[0].value is None and isinstance(t.ops[0], (ast.Is, ast.IsNot)):
-            return t.left.id, isinstance(t.ops[0], ast.IsNot) != neg
+        while isinstance(t, ast.UnaryOp) and isinstance(t.op, ast.Not):
+            t, neg = t.operand, not neg
+        if isinstance(t, ast.Name) and t.id in self.bh:
+            return ("tr", t.id, not neg)
+        if isinstance(t, ast.Name) and t.id in self.tracked and t.id not in self.reads:
+            return ("nn", t.id, not neg)  # (a None-or-error local: truthy <=> not None)
+        if isinstance(t, ast.Compare) and len(t.ops) == 1 and isinstance(t.left, ast.Name) and isinstance(t.comparators[0], ast.Constant) and t.comparators[0].value is None and isinstance(t.ops[0], (ast.Is, ast.IsNot)):
+            if t.left.id in self.tracked:
+                return ("nn", t.left.id, isinstance(t.ops[0], ast.IsNot) != neg)
+            if t.left.id in self.bh:
+                return ("tr_nn", t.left.id, isinstance(t.ops[0], ast.IsNot) != neg)
         return None
+
+    def evaluate(self, t: ast.AST, d: dict) -> bool | None:
+        if isinstance(t, ast.BoolOp):
+            vals = [self.evaluate(v, d) for v in t.values]
+            if isinstance(t.op, ast.And):
+                return False if False in vals else (True if all(v is True for v in vals) else None)
+            return True if True in vals else (False if all(v is False for v in vals) else None)
+        if isinstance(t, ast.UnaryOp) and isinstance(t.op, ast.Not) and isinstance(t.operand, ast.BoolOp):
+            v = self.evaluate(t.operand, d)
+            return None if v is None else not v
+        a = self._atom(t)
+        if a is None:
+            return None
+        kind, var, pol = a
+        if kind == "nn":
+            k = d.get(var)
+            return None if k is None else ((k != "N") == pol)
+        if kind == "tr":
+            k = d.get("bh:" + var)
+            return None if k is None else ((k == "T") == pol)
+        if kind == "tr_nn":
+            k = d.get("bh:" + var)
+            return (True == pol) if k == "T" else None  # truthy => not None
+        return None
+
+    def refine(self, t: ast.AST, val: bool, d: dict) -> None:
+        if isinstance(t, ast.BoolOp):
+            if (isinstance(t.op, ast.And) and val) or (isinstance(t.op, ast.Or) and not val):
+                for v in t.values:
+                    self.refine(v, val, d)
+            else:
+                # `a or b` true with a known false => b true ; `a and b` false with a known true => b false
+                decided = [self.evaluate(v, d) for v in t.values]
+                open_ = [v for v, e in zip(t.values, decided) if e is None]
+                others = [e for e in decided if e is not None]
+                if len(open_) == 1 and all(e is (not val) for e in others):
+                    self.refine(open_[0], val, d)
+            return
+        a = self._atom(t)
+        if a is None:
+            return
+        kind, var, pol = a
+        if kind == "nn":
+            d[var] = ("E" if d.get(var) != "R" else "R") if (val == pol) else "N"
+        elif kind == "tr":
+            d["bh:" + var] = "T" if (val == pol) else "F"
+
+    def test_of(self, t: ast.AST) -> tuple[str, bool] | None:  # (kept for callers that only need the simple form)
+        a = self._atom(t) if t is not None else None
+        return (a[1], a[2]) if a is not None and a[0] == "nn" else None
 
     def edges(self, cfg: CFG, n: int, st: frozenset, follow_exc: bool = False):
         """(successor, label, state after) for the feasible edges out of n in state st"""
         node = cfg.nodes[n]
         d = dict(st)
-        if node.kind == "stmt" and isinstance(node.ast, ast.Assign) and len(node.ast.targets) == 1 and isinstance(node.ast.targets[0], ast.Name) and node.ast.targets[0].id in self.tracked:
+        if node.kind == "stmt" and isinstance(node.ast, ast.Assign) and len(node.ast.targets) == 1 and isinstance(node.ast.targets[0], ast.Name):
+            tg = node.ast.targets[0].id
             v = node.ast.value
-            if isinstance(v, ast.Name) and v.id in self.tracked:
-                if v.id in d:
-                    d[node.ast.targets[0].id] = d[v.id]
+            if tg in self.reads:
+                d[tg] = "R"
+            elif tg in self.tracked:
+                if isinstance(v, ast.Name) and v.id in self.tracked:
+                    if v.id in d:
+                        d[tg] = d[v.id]
+                    else:
+                        d.pop(tg, None)
                 else:
-                    d.pop(node.ast.targets[0].id, None)
-            else:
-                d[node.ast.targets[0].id] = "N" if isinstance(v, ast.Constant) and v.value is None else "E"
-        tv = self.test_of(node.ast) if node.kind == "test" and node.ast is not None else None
+                    d[tg] = "N" if isinstance(v, ast.Constant) and v.value is None else "E"
+            elif tg in self.bh:
+                d.pop("bh:" + tg, None)
+        is_test = node.kind == "test" and node.ast is not None
+        ev = self.evaluate(node.ast, d) if is_test else None
         for s, lab in cfg.succ[n]:
             if lab == "x":
                 if follow_exc:
                     yield s, lab, st  # (the statement did not complete)
                 continue
             d2 = d
-            if tv is not None and lab in ("t", "f"):
-                var, nn_edge_true = tv
-                not_none_here = (lab == "t") == nn_edge_true
-                known = d.get(var)
-                if known is not None and (known == "E") != not_none_here:
-                    continue
+            if is_test and lab in ("t", "f"):
+                if ev is not None and ev != (lab == "t"):
+                    continue  # infeasible edge
                 d2 = dict(d)
-                d2[var] = "E" if not_none_here else "N"
+                self.refine(node.ast, lab == "t", d2)
             yield s, lab, frozenset(d2.items())
 
 
